@@ -29,6 +29,9 @@ K = dict(GcRequest=1, GcClearRequest=2, MonMakeRequest=3, MonRequested=4, MonPar
          VmBlockLeave=70, VmProcessWeak=72, VmForwardWeak=73)
 KEEP = set(range(1, 45)) | {64, 65, 66, 67, 68, 69, 70, 72, 73}
 BATCH_MOVE, SOLID, UNSOLID = 200, 202, 203
+# failures every scheduler check reports: the log is not a run of the model / the run did not finish
+COMMON_KEYS = ("sched:hang", "sched:panic", "sched:crash", "sched:not-enabled", "sched:shape", "sched:monitor-crash",
+               "sched:parse", "sched:unknown-packet", "sched:batch")
 M40 = 1 << 40
 
 
@@ -640,13 +643,23 @@ def conc_programs(rng, count):
         for k in range(40):
             x = alloc(0, 4, 64, 10 + k % 40)
             keep.append(x)
+        # a large live structure so that concurrent marking takes a while
+        head = None
+        for k in range(6000):
+            x = alloc(0, 2, 200, 61)
+            if head is not None:
+                p(f"write 0 {x} 0 {head}")
+            p(f"root 0 9 {x}")
+            head = x
+            if k % 50 == 0:
+                keep.append(x)
         for rounds in range(6):
             for k in range(700):
                 y = alloc(k % 2, 2, rng.choice([2000, 6000, 12000]), 60)
-                if k % 7 == 0:
+                if k % 3 == 0:
                     src = rng.choice(keep)
-                    p(f"write 0 {src} {rng.randrange(4)} {y}")
-            p("sleep 5")
+                    p(f"write 0 {src} {rng.randrange(2)} {y}")
+                    p("flush 0")
             p("events")
         progs.append(Prog(f"conc{i}-w{w}", "ConcurrentImmix", w, L, yseed=rng.randrange(1, 1 << 30) if i % 2 else 0,
                           heap=24 << 20, tags={"conc"}))
